@@ -271,6 +271,32 @@ def _commanded(ctx: Ctx, item=None):
             for b, w, c in res:
                 ctx.report(b + "|commanded-address", w, c)
     ctx.klass("commanded_address_scenarios")
+    # the same address is claimed again with a NAME that differs in ONE sub-field (an installer renumbers an instance, a device is swapped
+    # for its sibling): data sent afterwards carries the new identity - also in a decoder that filters the claims themselves out
+    base = traffic.iso_name(4711, 137, 1, 2, 130, 25, 3, 4, 0)
+    variants = [("uniqueNumber", base ^ 1), ("uniqueNumber-high", base ^ (1 << 20)), ("manufacturer", (base & ~(0x7FF << 21)) | (traffic.MANUFACTURERS[1][0] << 21)),
+                ("deviceInstanceLower", base ^ (1 << 32)), ("deviceInstanceLower-high", base ^ (4 << 32)), ("deviceInstanceUpper", base ^ (1 << 35)),
+                ("deviceInstanceUpper-high", base ^ (0x10 << 35)), ("function", (base & ~(0xFF << 40)) | (140 << 40)), ("deviceClass", (base & ~(0x7F << 49)) | (30 << 49)),
+                ("systemInstance", base ^ (1 << 56)), ("systemInstance-high", base ^ (8 << 56)), ("arbitraryAddressCapable", base ^ (1 << 63)),
+                ("same", base)]
+    for what, nm2 in variants:
+        if nm2 == base and what != "same":
+            continue
+        hist = [{"kind": "claim", "pgn": 60928, "src": 4, "dest": 255, "data": base.to_bytes(8, "little"), "msg": 0, "name": base},
+                {"kind": "single", "pgn": 127250, "src": 4, "dest": 255, "data": data, "msg": 1},
+                {"kind": "claim", "pgn": 60928, "src": 4, "dest": 255, "data": nm2.to_bytes(8, "little"), "msg": 2, "name": nm2},
+                {"kind": "single", "pgn": 127250, "src": 4, "dest": 255, "data": data, "msg": 3},
+                {"kind": "claim", "pgn": 60928, "src": 4, "dest": 255, "data": base.to_bytes(8, "little"), "msg": 4, "name": base},
+                {"kind": "single", "pgn": 127250, "src": 4, "dest": 255, "data": data, "msg": 5}]
+        for mode, entries in (("exclude", [60928]), ("exclude", ["isoAddressClaim"]), ("exclude", ["ISOADDRESSCLAIM", 130306]), ("include", [127250]),
+                              ("include", ["vesselHeading"]), ("include", ["vesselHeading", 60928]), ("exclude", [130306])):
+            for bm in (False, True):
+                ctx.count()
+                ctx.nontrivial_extra += 1
+                res, _, _ = run_case(mode, entries, hist, bm)
+                for b, w, c in res:
+                    ctx.report(b + f"|reclaim-{what}", w, c)
+    ctx.klass("reclaim_one_subfield_scenarios", len(variants))
 
 
 def _clients(ctx: Ctx, item=None):
